@@ -128,6 +128,10 @@ func VerifReloadReconcilesPath() {
 		}
 		vnd.Assert(verifSameStrings(verifGroups(live.pa.matches), verifGroups(wantMatches)), "the surviving path runs with the capture groups its name resolves to")
 	}
+	if err == nil && wantConf.Regexp == nil {
+		_, present := pm.paths["cam1"]
+		vnd.Assert(present, "a static configuration has its path after the reload (kept or created anew)")
+	}
 	vnd.Cover(err == nil && newName != oldName && change != 2, "path migrates to another regular-expression configuration")
 	vnd.Cover(err != nil, "configuration gone")
 	vnd.Cover(err == nil && alive && oldName == "all_others" && newName == "cam1" && change != 2, "path kept when it moves from the catch-all to a static configuration")
